@@ -150,15 +150,15 @@ Proof.
       by (destruct Hcls; [now left | right; split; [assumption | reflexivity]]).
     pose proof (fold_batch_seq mode chs (abs s) [] [] Hc) as HF.
     lapply HF; [clear HF; intros [F1 F2] | intros a H; discriminate].
-    unfold spec_put in EB.
-    destruct (match chs with [(a, _)] => negb (pin_mode mode) && match sp_data (abs s) a with Some _ => true | None => false end | _ => false end) eqn:Efast.
+    unfold spec_put in EB. cbv zeta in EB.
+    match type of EB with (if ?c then _ else _) = _ => destruct c eqn:Efast end.
     - (* fast path: a single present chunk in a non-pin mode *)
-      match type of EB with ?T => idtac T end. cbv zeta in EB. rewrite Efast in EB. injection EB as <- <-.
+      injection EB as <- <-.
       destruct chs as [|[a d] [|]]; try discriminate.
       apply andb_true_iff in Efast as [Ep Ed]. simpl. rewrite spec_put_single.
       destruct (sp_data (abs s) a); [|discriminate]. simpl.
       destruct mode; try discriminate; split; reflexivity.
-    - destruct (fold_left (sp_put_one mode) chs (abs s, [], [])) as [[spx exx] seenx] eqn:Efold. cbv zeta in EB. rewrite Efast, Efold in EB. injection EB as <- <-.
+    - destruct (fold_left (sp_put_one mode) chs (abs s, [], [])) as [[spx exx] seenx] eqn:Efold. injection EB as <- <-.
       simpl in F1, F2. split; assumption. }
   destruct Hfold as [F1 F2]. rewrite <- HR in F1, F2. simpl in F1, F2.
   split.
